@@ -21,7 +21,10 @@ import (
 )
 
 var (
-	RepoDir  = envOr("VERIF_REPO", "/repo")
+	RepoDir = envOr("VERIF_REPO", "/repo")
+	// OutDir receives scratch files, replays and evidence (default: VerifDir);
+	// set VERIF_OUT to keep a side run (e.g. against a seeded worktree) apart
+	OutDir   = envOr("VERIF_OUT", envOr("VERIF_DIR", "/verif"))
 	VerifDir = envOr("VERIF_DIR", "/verif")
 )
 
@@ -114,7 +117,7 @@ func (c *Ctx) Fail(format string, args ...any) {
 }
 
 func workDir(id string) string {
-	d := filepath.Join(VerifDir, ".work", id)
+	d := filepath.Join(OutDir, ".work", id)
 	os.MkdirAll(d, 0o755)
 	return d
 }
@@ -557,7 +560,7 @@ func tierMatch(t, tier string) bool {
 func Run(spec *Spec, tier string, seed int64) int {
 	c := &Ctx{Spec: spec, Tier: tier, Seed: seed, Start: time.Now(), Extra: map[string]any{}}
 	known := loadKnown()
-	replayRoot := filepath.Join(VerifDir, "replays", spec.ID)
+	replayRoot := filepath.Join(OutDir, "replays", spec.ID)
 	if spec.Prepare != nil {
 		if err := spec.Prepare(c); err != nil {
 			c.Fail("prepare: %v", err)
@@ -885,9 +888,9 @@ func (c *Ctx) writeEvidence(nviol int) {
 		"wall_s":      time.Since(c.Start).Seconds(),
 		"violations":  nviol,
 	}
-	os.MkdirAll(filepath.Join(VerifDir, "evidence"), 0o755)
+	os.MkdirAll(filepath.Join(OutDir, "evidence"), 0o755)
 	b, _ := json.MarshalIndent(ev, "", " ")
-	os.WriteFile(filepath.Join(VerifDir, "evidence", spec.ID+".json"), b, 0o644)
+	os.WriteFile(filepath.Join(OutDir, "evidence", spec.ID+".json"), b, 0o644)
 }
 
 var Registry = map[string]func() *Spec{}
